@@ -222,6 +222,28 @@ func (c *Cluster) Stop(i int) {
 	c.Log.Add(Event{Kind: "stopped", Server: i, Call: -1})
 }
 
+var lateSeq int32
+
+// RegisterLate registers one more (never called) handler on the running server i, in a
+// goroutine of its own: the caller waits at most 50 ms for it.
+func (c *Cluster) RegisterLate(i int) {
+	c.mu.Lock()
+	srv := c.servers[i]
+	up := c.up[i]
+	c.mu.Unlock()
+	if srv == nil || !up {
+		return
+	}
+	name := fmt.Sprintf("verif.Late.M%d", atomic.AddInt32(&lateSeq, 1))
+	done := make(chan struct{})
+	go func() {
+		defer close(done)
+		srv.RegisterHandler(name, func(gorums.ServerCtx, *gorums.Message, chan<- *gorums.Message) {})
+	}()
+	c.Log.Add(Event{Kind: "register", Server: i, Call: -1, Note: name})
+	waitCh(done, 50*time.Millisecond)
+}
+
 // Shutdown opens all gates and stops all servers.
 func (c *Cluster) Shutdown() {
 	c.OpenAll()
